@@ -83,6 +83,12 @@ def _mk_sync(kind):
         return contextlib.redirect_stdout(io.StringIO())
     if kind == "pym":
         return PyM()
+    if kind == "mock":
+        # everyday test code: a MagicMock used as a manager.  What `with` puts on the value stack for it is a child mock,
+        # which is not a bound method: the manager object itself cannot be recovered, but that is no reason to lose the
+        # frame's other managers (or to warn)
+        import unittest.mock
+        return unittest.mock.MagicMock()
     raise AssertionError(kind)
 
 
@@ -234,6 +240,8 @@ def run(req):
         stats["max_active"] = max(stats["max_active"], len(want))
         stats["c_implemented_active"] += sum(1 for i in active_now if items[i][0] in C_IMPLEMENTED)
         for mode in ("trick", "ref"):
+            if mode == "ref" and any(items[i][0] == "mock" for i in made):
+                continue      # (the referents analysis goes by the NAME of a bound exit method: documented limitation)
             set_trickery_enabled(mode == "trick")
             try:
                 with warnings.catch_warnings(record=True) as w:
@@ -252,7 +260,8 @@ def run(req):
                 continue
             ctxs = st.frames[0].contexts
             got = [c.obj for c in ctxs]
-            if len(got) != len(want) or any(a is not b for a, b in zip(got, want)):
+            unknowable = [items[i][0] == "mock" for i in active_now]
+            if len(got) != len(want) or any(a is not b and not (u and a is None) for a, b, u in zip(got, want, unknowable)):
                 obs.append({"kind": mode + ".managers", "at": j, "got": [type(o).__name__ for o in got],
                             "want": [type(o).__name__ for o in want]})
                 continue
